@@ -39,8 +39,129 @@ type mucCall struct {
 	joinedAfter *bool
 }
 
+// runC18Crossing: calls that start while a presence of the same room is only half delivered - the one situation the main
+// scenario avoids (there every call starts on a drained input, so that answers can be attributed). Here nothing is
+// attributed; what is demanded is progress: every call returns by its deadline at the latest, a call that the room
+// answers positively after the crossing succeeds, the session is still served afterwards and nothing stays blocked.
+func runC18Crossing(rc *RC) {
+	ch := rc.Ch
+	strat := rc.S.ConfigureStrategy()
+	e := rc.NewE2(E2Opts{Chunk: ch.Chance("workload", 1, 2)})
+	if e == nil {
+		return
+	}
+	invites := 0
+	client := &muc.Client{HandleInvite: func(muc.Invitation) { invites++ }, HandleUserPresence: func(stanza.Presence, muc.Item) {}}
+	serveT := e.Serve(mux.New(e.NS, muc.HandleClient(client)))
+	room := "room0@conf.example.net/nick"
+	second := ch.Int("workload", 3) // the call that crosses the half-delivered presence: 0 rejoin through the channel, 1 a fresh Join of the same address, 2 leave
+	halfKind := ch.Int("workload", 2) // what is half delivered: 0 a self-presence update, 1 another occupant's presence
+	gap := time.Duration(ch.Range("workload", 1, 40)) * 25 * time.Millisecond
+	rc.Describe("crossing strategy=%s second=%d half=%d gap=%v", strat, second, halfKind, gap)
+	rc.CaseKey = fmt.Sprint("crossing", second, halfKind)
+	self := func() string {
+		return fmt.Sprintf(`<presence from="%s"><x xmlns="http://jabber.org/protocol/muc#user"><item affiliation="member" role="participant"/><status code="110"/></x></presence>`, room)
+	}
+	halfPending := false
+	// the room: answers every request it reads (join: self-presence, leave: unavailable)
+	peer := rc.Spawn("peer", func() {
+		d := xml.NewDecoder(e.Peer)
+		depth := 0
+		for {
+			tok, err := d.Token()
+			if err != nil {
+				return
+			}
+			switch t := tok.(type) {
+			case xml.StartElement:
+				depth++
+				if depth == 2 && t.Name.Local == "presence" {
+					// one stanza at a time: the room finishes the presence it is in the middle of before it answers
+					simrt.WaitUntil("peer:stanza-complete", func() bool { return !halfPending })
+					if (Elem{Start: t}).Attr("type") == "unavailable" {
+						e.PeerWrite(fmt.Sprintf(`<presence from="%s" type="unavailable"><x xmlns="http://jabber.org/protocol/muc#user"><item affiliation="member" role="none"/><status code="110"/></x></presence>`, room))
+					} else {
+						e.PeerWrite(self())
+					}
+				}
+			case xml.EndElement:
+				depth--
+			}
+		}
+	})
+	peer.Daemon = true
+	var err1, err2 error
+	done1, done2 := false, false
+	var chn *muc.Channel
+	app := rc.Spawn("app", func() {
+		ctx, cancel := context.WithTimeout(e.Ctx, 5*time.Second)
+		chn, err1 = client.Join(ctx, jid.MustParse(room), e.Sess)
+		simrt.Settle(cancel, "h:cancel")
+		done1 = true
+		if err1 != nil || chn == nil {
+			return
+		}
+		// the first half of a presence from the room …
+		from := room
+		if halfKind == 1 {
+			from = "room0@conf.example.net/somebody"
+		}
+		halfPending = true
+		e.PeerWrite(fmt.Sprintf(`<presence from="%s"><x xmlns="http://jabber.org/protocol/muc#user">`, from))
+		rc.Fire("presence-half-delivered")
+		// … the rest of it a little later, written by somebody else
+		rc.Spawn("second-half", func() {
+			simrt.Sleep(gap)
+			status := ""
+			if halfKind == 0 {
+				status = `<status code="110"/>`
+			}
+			e.PeerWrite(`<item affiliation="member" role="participant"/>` + status + `</x></presence>`)
+			halfPending = false
+		})
+		// … and meanwhile the next call
+		simrt.Sleep(time.Duration(ch.Range("workload", 0, 40)) * 25 * time.Millisecond)
+		ctx2, cancel2 := context.WithTimeout(e.Ctx, 20*time.Second)
+		switch second {
+		case 0:
+			err2 = chn.Join(ctx2)
+		case 1:
+			_, err2 = client.Join(ctx2, jid.MustParse(room), e.Sess)
+		default:
+			err2 = chn.Leave(ctx2, "bye")
+		}
+		simrt.Settle(cancel2, "h:cancel")
+		done2 = true
+	})
+	st := rc.S.Run(func() bool { return app.Done() }, 200000, 2*time.Minute)
+	rc.Evals["C18.c8"]++
+	if !app.Done() {
+		rc.Failf("C18.c8", "call-stuck-across-half-delivered-presence", "a call that started while a presence of its room was half delivered has not returned (first call done=%v err=%v, second kind %d done=%v): status %v, stuck %v", done1, err1, second, done2, st, rc.S.Stuck())
+	} else if done1 && err1 == nil && done2 && err2 != nil {
+		rc.Failf("C18.c8", "call-fails-across-half-delivered-presence", "the room answered, but the call (kind %d) that started while a presence of its room was half delivered returned %v", second, err2)
+	}
+	// the session is still served
+	rc.Spawn("invite", func() {
+		e.PeerWrite(`<message from="roomx@conf.example.net"><x xmlns="http://jabber.org/protocol/muc#user"><invite from="friend@example.net"/></x></message>`)
+	})
+	rc.S.Run(func() bool { return invites > 0 }, 20000, time.Minute)
+	rc.Evals["C18.c8"]++
+	if invites != 1 && serveT.Panic == nil {
+		rc.Failf("C18.c8", "session-not-served-after-crossing", "an invitation sent after the calls was delivered %d times: the serve loop is stuck %v", invites, rc.S.Stuck())
+	}
+	rc.Spawn("peer-close", func() { e.PeerWrite(e.CloseTag()) })
+	rc.S.Run(func() bool { return e.ServeDone }, 20000, time.Minute)
+	stuck := rc.Teardown()
+	rc.CheckPanics("C18.c8")
+	rc.Check("C18.c8", "stuck-after-teardown", len(stuck) == 0, "tasks still blocked after teardown: %v", stuck)
+}
+
 func runC18(rc *RC) {
 	ch := rc.Ch
+	if ch.Chance("workload", 1, 8) {
+		runC18Crossing(rc)
+		return
+	}
 	strat := rc.S.ConfigureStrategy()
 	e := rc.NewE2(E2Opts{Chunk: ch.Chance("workload", 1, 2)})
 	if e == nil {
